@@ -15,7 +15,7 @@ from .common import EVIDENCE, REPLAYS, VERIF, Ctx, Failure, Result, jdump
 
 TRUSTED_COMMON = [
     "Coq 8.16.1 kernel and vm_compute (no native_compute); no Axiom/Parameter/Admitted declared in /verif/coq",
-    "hand-written Gallina model of the anchored repid functions; fidelity checked only by the correspondence run",
+    "hand-written Gallina model of the anchored repid functions; fidelity checked by the correspondence run (and, for the schedule arithmetic, by the translator: coq/GenSched.v is regenerated from the source on every run and proved equal to the model)",
     "harness: pinned/virtual clock, generators, Coq term printer, comparison code",
     "CPython 3.12 / asyncio semantics, json, datetime.isoformat/fromisoformat as trusted runtime",
 ]
